@@ -6,11 +6,14 @@ open Comrak.C09
 #print axioms literal_with_children_counterexample
 #print axioms xml_attr_values_escaped
 #print axioms xml_names_legal
-#print axioms escapedTag_counterexample
-#print axioms C09_wellformed_full_false
-#print axioms info_unescaped_before_fix
 #print axioms xml_lexes
-#print axioms xml_mirrors_tree_partial
-#print axioms xml_wellformed_partial
-#print axioms C09_mirrors_full_false
+#print axioms xml_tokens_lexable
+#print axioms xml_mirrors_tree
+#print axioms xml_wellformed
+#print axioms C09_mirrors_full_holds
+#print axioms C09_wellformed_full_holds
+#print axioms literal_with_children_rejected
+#print axioms escapedTag_example
+#print axioms escapedTag_payload_before_fix
+#print axioms info_unescaped_before_fix
 #print axioms stack_traversal_eq_recursive
